@@ -87,6 +87,15 @@ def extract():
     if not i:
         raise ExtractError("impl TempFile not found")
     tf = src[i.end():match_brace(src, i.end() - 1)]
+    # TempFile::create: `File::create(path)` (= O_CREAT|O_TRUNC). Anything else (OpenOptions …) is
+    # recognised only if it spells `.truncate(true)`; otherwise the pessimistic fact `false`.
+    create = fn_body(tf, "create")
+    create_truncates = re.search(r"\bFile\s*::\s*create\s*\(\s*path\s*\)", create) is not None or \
+        (re.search(r"OpenOptions", create) is not None and re.search(r"\.\s*truncate\s*\(\s*true\s*\)", create) is not None)
+    # does anything open and sync the destination's parent directory after the rename? (recorded, no
+    # theorem needs it: without it the *rename* is atomic but not itself durable)
+    syncs_parent = re.search(r"\.\s*parent\s*\(\s*\)", src[i.end():match_brace(src, i.end() - 1)]) is not None and \
+        re.search(r"sync_all|sync_data", fn_body(tf, "commit")) is not None
     commit = fn_body(tf, "commit")
     c_none = re.search(r"self\s*\.\s*file\s*=\s*None", commit)
     c_ren = re.search(r"fs\s*::\s*rename\s*\(", commit)
@@ -116,12 +125,19 @@ def extract():
     raw = read("src/value_stream.rs")
     ts = re.search(r"fn\s+temp_sibling[^{]*\{(.*?)\n\}", raw, re.S)
     sm = re.search(r'name\s*\.\s*push\s*\(\s*"([^"]*)"\s*\)', ts.group(1)) if ts else None
-    if not sm:
-        raise ExtractError("temp_sibling: suffix not recognised")
-    return {"steps": steps, "pullResFirst": pull_first, "tempSuffix": sm.group(1),
+    # recognised naming: take the whole file name, push a literal suffix, put it back with
+    # `with_file_name`. Any other derivation (with_extension, set_extension, a fixed name, another
+    # directory …) is the pessimistic fact `false`: distinct destinations may then share a temp file.
+    tb = ts.group(1) if ts else ""
+    appends = bool(sm) and re.search(r"\.\s*file_name\s*\(\s*\)", tb) is not None and \
+        re.search(r"final_path\s*\.\s*with_file_name\s*\(\s*name\s*\)", tb) is not None and \
+        not re.search(r"with_extension|set_extension|set_file_name|temp_dir|\.\s*join\s*\(", tb)
+    suffix = sm.group(1) if sm else ""
+    return {"steps": steps, "pullResFirst": pull_first, "tempSuffix": suffix, "tempAppendsToFileName": bool(appends),
             "dropRemovesUncommitted": drop_removes, "commitClosesBeforeRename": closes_first,
             "commitRemovesOnRenameError": removes_on_err, "writeFileCommitsOnlyOnOk": wf_commit_ok_only,
-            "readerEofOnlyAfterLast": reader_ok}
+            "readerEofOnlyAfterLast": reader_ok, "tempCreateTruncates": create_truncates,
+            "syncsParentDir": syncs_parent}
 
 
 def render(f):
@@ -148,6 +164,10 @@ def pullResFirst : Bool := {b(f['pullResFirst'])}
 /-- `temp_sibling`: the suffix pushed onto the destination's file name. -/
 def tempSuffix : String := "{f['tempSuffix']}"
 
+/-- … by `file_name()` → `name.push(suffix)` → `final_path.with_file_name(name)`: appended to the whole
+file name, same directory (`tempSibling` of the model). Any other derivation is `false`. -/
+def tempAppendsToFileName : Bool := {b(f['tempAppendsToFileName'])}
+
 /-- `Drop for TempFile` removes the file while `self.file.is_some()`; `commit` sets `self.file = None`
 before `fs::rename`, repoints `self.path` on success and calls `remove_file` on a rename error. -/
 def dropRemovesUncommitted : Bool := {b(f['dropRemovesUncommitted'])}
@@ -160,6 +180,14 @@ def writeFileCommitsOnlyOnOk : Bool := {b(f['writeFileCommitsOnlyOnOk'])}
 /-- `ChunkReader::fetch` sets `last_seen`/`finished` only under `if last`, `read` returns `Ok(0)` only
 under `if self.finished`. -/
 def readerEofOnlyAfterLast : Bool := {b(f['readerEofOnlyAfterLast'])}
+
+/-- `TempFile::create` opens the temp path with create + truncate (`File::create`): a stale temp file
+left by a killed pull cannot leak into what is published. -/
+def tempCreateTruncates : Bool := {b(f['tempCreateTruncates'])}
+
+/-- `commit` also opens and syncs the destination's parent directory (recorded; no theorem depends on
+it — without it the rename is atomic but not yet durable when the pull returns). -/
+def syncsParentDir : Bool := {b(f['syncsParentDir'])}
 
 end Repe.Gen.Commit
 """
